@@ -629,9 +629,22 @@ def rule_cmp_evict(ctx):
                       expected='evict_expired_if_needed(); evict_lru_entries();')
     if R.maintenance:
         WTE, EVL = named(ctx, 'sync.weights_to_evict'), named(ctx, 'sync.evict_lru')
+        EXP = named(ctx, 'sync.evict_expired')
         for m in sorted(R.maintenance):
-            paths = [p for p in _run(ctx, m, inline_depth=1, loop_visits=2, inline_pred=lambda n_, bb, d: False) if not p.diverged]
+            # helpers of the run that lead to the eviction / expiry steps are part of the run
+            leads = {x for x in prog.reachable_from([m]) if x not in (m, EVL, EXP, WTE) and prog.bodies[x].kind != 'closure' and x.startswith('sync::') and
+                     (prog.reachable_from([x]) & {EVL, EXP}) and not prog.bodies[x].loops()}
+            paths = [p for p in _run(ctx, m, inline_depth=1 + min(len(leads), 3), loop_visits=2, inline_pred=lambda n_, bb, d, _l=frozenset(leads): n_ in _l) if not p.diverged]
             for p in paths:
+                # order of the two steps: expired entries are released first, the excess is what remains
+                i_evl = [i for i, e in enumerate(p.events) if e[0] == 'call' and str(e[1]) == EVL]
+                i_exp = [i for i, e in enumerate(p.events) if e[0] == 'call' and str(e[1]) == EXP]
+                if i_evl and i_exp:
+                    r.instance(function=m, expiry_step_before_eviction=i_exp[0] < i_evl[0])
+                    if i_exp[0] > i_evl[0]:
+                        r.violate(m, 'evict-before-expire', 'order', 'the maintenance run evicts for capacity BEFORE it releases the expired / invalidated entries: the excess is '
+                                  'measured while they still count, so live LRU entries are evicted for room the expiry step frees anyway', where=ctx.where(m),
+                                  expected='evict_expired(..) first, then weights_to_evict / evict_lru_entries(..)')
                 guard = None
                 for t, v in _ordered_literals(p):
                     if isinstance(t, tuple) and t[0] == 'cmp' and t[1] == 'le' and (
